@@ -376,6 +376,12 @@ func (vHostDialer) DialHost(ctx context.Context, host *HostInfo) (*DialedHost, e
 	return nil, vErrIO
 }
 
+type vNetDialer struct{}
+
+func (vNetDialer) DialContext(ctx context.Context, network, addr string) (net.Conn, error) {
+	return nil, vErrIO
+}
+
 func vh_conn_config() {
 	cfg := &ClusterConfig{}
 	withSSL := vBool("ssl_opts")
@@ -401,6 +407,11 @@ func vh_conn_config() {
 	if custom {
 		cfg.HostDialer = vHostDialer{}
 	}
+	// ClusterConfig.Dialer only replaces how the TCP connection is made: TLS is still the driver's business
+	ownDialer := vBool("custom_net_dialer")
+	if ownDialer {
+		cfg.Dialer = vNetDialer{}
+	}
 	auth := PasswordAuthenticator{Username: "u", Password: "p"}
 	if vBool("authenticator") {
 		cfg.Authenticator = auth
@@ -421,6 +432,9 @@ func vh_conn_config() {
 	hd, ok := cc.HostDialer.(*defaultHostDialer)
 	vAssert(ok && hd != nil, "C20/connconfig/default-host-dialer")
 	if ok && hd != nil {
+		if ownDialer {
+			vAssert(hd.dialer == Dialer(vNetDialer{}), "C20/connconfig/custom-net-dialer-is-used-as-given")
+		}
 		vAssert((hd.tlsConfig != nil) == withSSL, "C20/connconfig/tls-exactly-when-ssl-options-are-given")
 		if withSSL && hd.tlsConfig != nil {
 			wantVerify := hostVerification
